@@ -1,6 +1,6 @@
 (* C16 — all lemmas, and the concrete states used as non-vacuity examples. *)
 From Yv Require Export Common.Base C16.Model C16.Spec C16.ProofsBase C16.ProofsAbs C16.ProofsProps
-  C16.ProofsFrame C16.ProofsScript C16.Run C16.ProofsOracle.
+  C16.ProofsFrame C16.ProofsScript C16.Run C16.ProofsOracle C16.ProofsPanic.
 
 Definition A : name := [97%N].
 
@@ -88,5 +88,54 @@ Lemma typeset_temp_outlives :
     exists w, get s' n = Some w /\ vval w = Some FIVE /\ vexp w = true.
 Proof.
   exists [(A, FIVE)], A. vm_compute. eexists _, _. split; [reflexivity|].
+  split; [left; reflexivity|]. split; [reflexivity|]. eexists. repeat split.
+Qed.
+
+Lemma ex_special_runs :
+  exists t s', irun vset step (m_obs_vars [A; B]) (m_obs_env [A; B])
+                 (compile (CSpecial [(A, FIVE)])) ex_pre_state = (t, Finished, s').
+Proof. vm_compute. eauto. Qed.
+
+Lemma ex_global_persist_runs :
+  exists t s', irun vset step (m_obs_vars [A; B]) (m_obs_env [A; B])
+                 (compile (CCall [(A, Scalar [55%N])] [CAssign [(A, FIVE)]] [])) ex_pre_state
+               = (t, Finished, s').
+Proof. vm_compute. eauto. Qed.
+
+Lemma ex_state_get : exists v, get ex_state A = Some v /\ vval v = Some (Scalar [51%N]).
+Proof. vm_compute. eexists; split; reflexivity. Qed.
+
+Lemma ex_state_covers : forall n, stack_of ex_state n <> [] -> In n [A].
+Proof.
+  intros n H. left.
+  assert (Hv : map fst (vars ex_state) = [A]) by (vm_compute; reflexivity).
+  unfold stack_of in H. destruct (assoc n (vars ex_state)) as [st|] eqn:E; [|contradiction H; reflexivity].
+  apply assoc_in in E. apply (in_map fst) in E. cbn [fst] in E. rewrite Hv in E.
+  destruct E as [<-|[]]. reflexivity.
+Qed.
+
+Lemma ex_names_ok : (forall n, In n [A; B] -> ~ In EQ n) /\ NoDup [A; B].
+Proof.
+  split.
+  - intros n [<-|[<-|[]]] [H|[]]; discriminate.
+  - constructor; [intros [H|[]]; discriminate|]. constructor; [intros []|constructor].
+Qed.
+
+Definition ex_script : list cmd :=
+  ex_pre ++ [CCall [(A, FIVE)] ex_body [[113%N]]; CExec [(B, FIVE)]; CProbe []].
+
+Lemma ex_script_runs :
+  exists tm s', run_script [A; B] ex_script = (tm, Finished, s') /\ length tm = 3.
+Proof. vm_compute. eauto. Qed.
+
+(* `a=5 read a` with the input line `7`: a=7 stays, exported *)
+Lemma read_temp_outlives :
+  exists temps n line t s',
+    irun vset step (m_obs_vars [[97%N]]) (m_obs_env [[97%N]]) (compile (CRead temps n line)) init
+      = (t, Finished, s') /\
+    In n (map fst temps) /\ get init n = None /\
+    exists w, get s' n = Some w /\ vval w = Some (Scalar line) /\ vexp w = true.
+Proof.
+  exists [(A, FIVE)], A, [55%N]. vm_compute. eexists _, _. split; [reflexivity|].
   split; [left; reflexivity|]. split; [reflexivity|]. eexists. repeat split.
 Qed.
